@@ -50,10 +50,48 @@ def _throw(eng, args, kw, st, fr, k, node):
     return k(PNONE, St(st.env, st.heap, st.pc, g))
 
 
+def _same(eng, x, y):
+    """the very same value (object identity in the symbolic environment, or equal terms)"""
+    if x is y:
+        return True
+    try:
+        return bool(eng.to_v(x).eq(eng.to_v(y)))
+    except Exception:
+        return False
+
+
+def _abs_range(eng, args, kw, st, fr, k, node):
+    """self.to_absolute_time_range(run_id=..., targets=..., time_range=..., seconds_range=..., time_within=...)"""
+    env = st.env
+    ok = (not args and _same(eng, kw.get("time_range"), env.get("#entry_time_range"))
+          and _same(eng, kw.get("seconds_range"), env.get("#entry_seconds_range"))
+          and _same(eng, kw.get("time_within"), env.get("#entry_time_within"))
+          and _same(eng, kw.get("targets"), env.get("#entry_targets")) and kw.get("run_id") is env.get("run_id")
+          and not kw.get("full_range"))
+    eng.oblige("get_iter", "the absolute time range is computed from exactly the request's run, targets, time_range, seconds_range and "
+                           "time_within", st, z3.BoolVal(bool(ok)), node)
+    r = Opq(eng.fresh("absolute_time_range", "V"))
+    e2 = dict(env)
+    e2["#abs_time_range"] = r
+    return k(r, St(e2, st.heap, st.pc, st.ghost))
+
+
+def _get_components(eng, args, kw, st, fr, k, node):
+    env = st.env
+    ok = (_same(eng, kw.get("time_range"), env.get("#abs_time_range")) and _same(eng, kw.get("selection"), env.get("#entry_selection"))
+          and _same(eng, kw.get("keep_columns"), env.get("#entry_keep_columns"))
+          and _same(eng, kw.get("drop_columns"), env.get("#entry_drop_columns")) and _same(eng, kw.get("save"), env.get("#entry_save")))
+    eng.oblige("get_iter", "the request is planned (get_components) with its own time range, selection, columns and save argument - "
+                           "these decide that a partial request saves nothing", st, z3.BoolVal(bool(ok)), node)
+    return k(Opq(eng.fresh("components", "V")), st)
+
+
 def _apply_selection(eng, args, kw, st, fr, k, node):
     env = st.env
-    same = all(kw.get(key) is env.get(key) for key in ("selection", "keep_columns", "drop_columns", "time_range", "time_selection"))
-    eng.oblige("get_iter", "every chunk is filtered with exactly the selection, columns, time range and time_selection of the request", st,
+    same = (all(_same(eng, kw.get(key), env.get("#entry_" + key)) for key in ("selection", "keep_columns", "drop_columns", "time_selection"))
+            and _same(eng, kw.get("time_range"), env.get("#abs_time_range")))
+    eng.oblige("get_iter", "every chunk is filtered with exactly the selection, columns and time_selection the caller passed and the "
+                           "absolute time range computed from the request (none of them re-bound on the way)", st,
                z3.BoolVal(bool(same)), node)
     fr.on_raise(Exc("Any", Opq(eng.fresh("selection_exc", "V"))), st)
     return k(Opq(eng.fresh("selected", "V")), St(st.env, st.heap, st.pc, {**st.ghost, "selected": z3.BoolVal(True)}))
@@ -69,6 +107,8 @@ def _registry_del(eng, st, key, value, node):
 def _gi_setup(eng, st):
     env = dict(st.env)
     env["#entry_max_workers"] = st.env["max_workers"]
+    for key in ("selection", "keep_columns", "drop_columns", "time_selection", "time_range", "seconds_range", "time_within", "targets", "save"):
+        env["#entry_" + key] = st.env[key]
     return St(env, st.heap, st.pc, st.ghost)
 
 
@@ -100,11 +140,11 @@ get_iter = REG.add(Contract(
     calls={"processor": _processor_call, ".iter": _iter_call, "strax.continuity_check": _continuity, "generator.throw": _throw,
            "strax.apply_selection": _apply_selection,
            "hasattr": Abstract(sort="bool", pure=True), "run_id.decode": Abstract(pure=True), "self.new_context": Abstract(),
-           "self.to_absolute_time_range": Abstract(pure=True), "list": Abstract(pure=True),
+           "self.to_absolute_time_range": _abs_range, "list": Abstract(pure=True),
            "strax.set_keep_order": Abstract(pure=True), "strax.to_str_tuple": Abstract(pure=True),
            "self._get_plugins": Abstract(), "strax.deterministic_hash": Abstract(pure=True), "type": Abstract(),
            "tuple": Abstract(pure=True), "dict": Abstract(), "set": Abstract(pure=True), "self.register": Abstract(sort=None),
-           "self.get_components": Abstract(), "self._make_progress_bar": Abstract(), "time.perf_counter": Abstract(),
+           "self.get_components": _get_components, "self._make_progress_bar": Abstract(), "time.perf_counter": Abstract(),
            "self._apply_function": Abstract(may_raise=["Any"]), "self._update_progress_bar": Abstract(sort=None), "_p.close": Abstract(sort=None),
            "OutsideException": Abstract(pure=True)},
     store_hooks={"del:self._plugin_class_registry": _registry_del, "attr:*": lambda eng, st, obj, v, node: st},
@@ -126,3 +166,45 @@ def _gi_after_yield(eng, st, value):
 
 get_iter.after_yield = _gi_after_yield
 get_iter.yield_may_throw = "GeneratorExit"
+
+
+# --------------------------------------------------------------------------------------
+# Context.estimate_run_start_and_end: "seconds since run start" counts from a WHOLE second (C10)
+# --------------------------------------------------------------------------------------
+MD = z3.Function("fn:metadata", V, V, V)
+I2V = z3.Function("int2v", z3.IntSort(), V)
+NS = 10 ** 9
+
+
+def _get_metadata(eng, args, kw, st, fr, k, node):
+    fr.on_raise(Exc("DataNotAvailable", Opq(eng.fresh("dna", "V"))), st)
+    return k(Opq(MD(eng.to_v(args[0]), eng.to_v(args[1]))), st)
+
+
+def _erse_ens(S, a, r):
+    from pyvc.engine import strv, v2int
+    if not (isinstance(r, (tuple, list)) and len(r) == 2 and all(isinstance(x, z3.ExprRef) and z3.is_int(x) for x in r)):
+        return []            # the "assuming 0 and inf" fallback
+    out = [("start and end of the run are whole seconds (multiples of 10^9 ns) - what 'seconds since run start' counts from, "
+            "with and without run metadata", S.And(r[0] % NS == 0, r[1] % NS == 0))]
+    if a.local._has("t0"):
+        chunks = GETITEM(MD(S.v(a.run_id), S.v(a.local.t)), strv("chunks"))
+        start = v2int(GETITEM(GETITEM(chunks, I2V(z3.IntVal(0))), strv("start")))
+        end = v2int(GETITEM(GETITEM(chunks, I2V(z3.IntVal(-1))), strv("end")))
+        out.append(("inferred from the data: the start is the first stored chunk's start floored to the second, the end the last "
+                    "chunk's end floored to the second",
+                    S.And(r[0] <= start, start < r[0] + NS, r[1] <= end, end < r[1] + NS)))
+    return out
+
+
+estimate_run_start_and_end = REG.add(Contract(
+    F, "Context.estimate_run_start_and_end",
+    params=dict(self="V", run_id="V", targets="V"),
+    ensures=_erse_ens,
+    raises={"TypeError": lambda S, a: S.true, "ValueError": lambda S, a: S.true},     # int() of a metadata entry that is not a number
+    calls={"float": Abstract(pure=True), "self.run_metadata": Abstract(may_raise=["RunMetadataNotAvailable", "KeyError"]), "self.log.debug": Abstract(sort=None),
+           "self.log.warning": Abstract(sort=None), "self._get_plugins": Abstract(), "strax.to_str_tuple": Abstract(pure=True),
+           "self.is_stored": Abstract(sort="bool"), "self.get_metadata": _get_metadata, "type": Abstract()},
+    loops={1: Loop(lambda S, a: []), 2: Loop(lambda S, a: [])},
+    consts={"datetime.timezone.utc": Opq(z3.Const("utc", V))},
+))
